@@ -198,10 +198,61 @@ func c18ReadFaults(c *fw.Ctx, d corpusDoc, sample int) *fw.Outcome {
 func c18WriteFaults(c *fw.Ctx, seed uint64) *fw.Outcome {
 	s := richSubtitles(fw.NewRand(seed))
 	key := fw.Mix(seed, 0xc18f)
+	if n := len(s.Items); n > 0 && seed%2 == 0 {
+		// the last characters of the last cue are white space of some kind: they belong to the document as well
+		if ls := s.Items[n-1].Lines; len(ls) > 0 && len(ls[len(ls)-1].Items) > 0 {
+			li := &ls[len(ls)-1].Items[len(ls[len(ls)-1].Items)-1]
+			li.Text += []string{" ", "\t", "\u3000", "\u2003 "}[seed/2%4]
+		}
+	}
 	for _, w := range append(append([]namedWriter(nil), allWriters...), c18OptionWriters...) {
 		ref, rerr, p := writeBytes(w, s)
 		if p != "" || rerr != nil {
 			continue // C08 / C19 territory
+		}
+		// every cue of the list is in the document: one timing line / event / paragraph / TTI block (at least) per cue
+		if n := len(s.Items); n > 0 {
+			have := -1
+			switch w.name {
+			case "srt", "webvtt":
+				have = bytes.Count(ref, []byte(" --> "))
+			case "ssa":
+				have = bytes.Count(ref, []byte("\nDialogue: "))
+			case "ttml":
+				have = bytes.Count(ref, []byte("<p "))
+			case "stl":
+				have = (len(ref) - 1024) / 128
+			}
+			if have >= 0 {
+				c.Count("documents_counted_cue_by_cue", 1)
+				if have < n {
+					o := fw.Bad(key, nil, "%s writer returned a nil error on a list of %d cues, but the document handed over (%d bytes) holds %d of them (list seed %d)", w.name, n, len(ref), have, seed)
+					return &o
+				}
+			}
+		}
+		// the line-oriented writers put one cue after the other: the document of a list is the beginning of the document
+		// of the same list with one more cue at its end - the last cue is handed over as completely as any other
+		if n := len(s.Items); n > 0 && (w.name == "srt" || w.name == "webvtt" || w.name == "ssa") {
+			s2 := *s
+			end := s.Items[n-1].EndAt
+			for _, it := range s.Items {
+				if it.EndAt > end {
+					end = it.EndAt
+				}
+			}
+			s2.Items = append(append([]*astisub.Item(nil), s.Items...), textItem(end+time.Second, end+2*time.Second, "one more"))
+			if ref2, err2, p2 := writeBytes(w, &s2); p2 == "" && err2 == nil {
+				c.Count("append_a_cue_prefix_checks", 1)
+				if !bytes.HasPrefix(ref2, ref) {
+					k := 0
+					for k < len(ref) && k < len(ref2) && ref[k] == ref2[k] {
+						k++
+					}
+					o := fw.Bad(key, nil, "%s writer: the document of the list (%d bytes) is not the beginning of the document of the same list with one more cue: they part at byte %d (%q vs %q): the last cue was not handed over completely (list seed %d)", w.name, len(ref), k, trunc(string(ref[k:]), 40), trunc(string(ref2[k:]), 40), seed)
+					return &o
+				}
+			}
 		}
 		// without a fault the sink must have received exactly the document
 		sink := &faultWriter{k: 1 << 30}
@@ -620,7 +671,7 @@ func init() {
 	fw.Register(&fw.Property{
 		ID:          "C18",
 		Level:       "fault_enumeration",
-		Rule:        "read faults: for documents of every format (generated by the C01-C06 generators; the last 6 are ~200 KiB) and every offset k in 0..len (every offset when the document has at most 300 bytes, else offsets 0..64, the last 64 and 300 random ones; for TTML up to the end of the root element) the harness reader delivers k bytes and then fails with a non-EOF error, once as (0, err) and once as (m>0, err) together with the last chunk; the reader must return a non-nil error (a reader that stopped reading before the fault is counted separately). write faults: for random rich cue lists and each of the 5 writers, the destination fails at every output offset (all offsets up to 3000 bytes, else 400 edge + 600 random), refusing the chunk or accepting a partial write; the writer must return a non-nil error; without a fault the sink must have received exactly the document. Plus, without any fault, lists of 1, 255, 256, 65 537 cues through every writer and 100 001 cues through the STL writer: the destination must hold every cue. Plus lines of 2^16-100..2^20 bytes in srt/webvtt/ssa (error or complete parse), the file helpers (missing input, missing directory, EISDIR for every extension, ENOSPC via a symlink to /dev/full through Subtitles.Write and the CLI) and, in the thorough tier, strace ENOSPC injection on the CLI's output writes. distinct_nontrivial = distinct documents/lists; events count the faults injected.",
+		Rule:        "read faults: for documents of every format (generated by the C01-C06 generators; the last 6 are ~200 KiB) and every offset k in 0..len (every offset when the document has at most 300 bytes, else offsets 0..64, the last 64 and 300 random ones; for TTML up to the end of the root element) the harness reader delivers k bytes and then fails with a non-EOF error, once as (0, err) and once as (m>0, err) together with the last chunk; the reader must return a non-nil error (a reader that stopped reading before the fault is counted separately). write faults: for random rich cue lists and each of the 5 writers, the destination fails at every output offset (all offsets up to 3000 bytes, else 400 edge + 600 random), refusing the chunk or accepting a partial write; the writer must return a non-nil error; without a fault the sink must have received exactly the document, the document must hold a timing line / event / paragraph / TTI block for every cue of the list, and for the line-oriented writers (srt, webvtt, ssa) it must be the beginning of the document of the same list with one more cue appended (every second list ends in white space of some kind). Plus, without any fault, lists of 1, 255, 256, 65 537 cues through every writer and 100 001 cues through the STL writer: the destination must hold every cue. Plus lines of 2^16-100..2^20 bytes in srt/webvtt/ssa (error or complete parse), the file helpers (missing input, missing directory, EISDIR for every extension, ENOSPC via a symlink to /dev/full through Subtitles.Write and the CLI) and, in the thorough tier, strace ENOSPC injection on the CLI's output writes. distinct_nontrivial = distinct documents/lists; events count the faults injected.",
 		Assumptions: []string{"a fault is an error other than io.EOF", "for TTML only faults before the end of the root element must be reported"},
 		Cases:       func(tier string) int64 { return 2*tierN(tier, 18, 360) + 4 },
 		Anchors:     []string{"ReadFromSRT", "ReadFromWebVTT", "ReadFromSSAWithOptions", "readNBytes", "ReadFromTTML", "ReadFromTeletext", "WriteToSRT", "WriteToWebVTT", "WriteToSSA", "WriteToSTL", "WriteToTTML", "Open", "Subtitles.Write"},
